@@ -14,7 +14,7 @@ class Prop(BaseProp):
         "(own xorb/shard readers, blake3/sha2 called directly); the Coq model covers FileDeduper, DataAggregator and the session's aggregation logic over an oracle data interface",
         "tokio scheduling of concurrently cleaned files: sampled (fp files), covered in the model by the oracle quantifier",
         "Model/Manager.v is hand-written; tied to mdb_shard/src/shard_file_manager.rs by stream mgr (answer-by-answer) and by the ManagerFacts pins (exact bodies of chunk_hash_dedup_query and add_cas_block, statement order of register_shards, flush; fact index_counts_inserted_entries regenerated)",
-        "the manager model gives every flushed shard file a fresh identity (the real identity is the hash of its bytes, which include the creation time); registration order within one register_shards call (by mtime) is not modelled: scripts register one file per call",
+        "the manager model gives every flushed shard file a fresh identity (the real identity is the hash of its bytes, which include the creation time); a register_shards call with several files is the sequence of single registrations in descending order of modification time (stable; Manager.batch_order, scripts set the times explicitly)",
     ]
     assumptions = [
         "configurations: HF_XET_TARGET_CHUNK_SIZE/MAX_XORB_BYTES/MAX_XORB_CHUNKS/NRANGES/INGESTION_BLOCK_SIZE scaled down through the code's own environment overrides (dev profile), one process per configuration",
